@@ -60,7 +60,7 @@ class Prop:
 
     def shrink(self, c, tag):
         """greedy line deletion while the oracle keeps reporting the same tag"""
-        if c.get("kind") != "comp" or c.get("files") is not None or "text" not in c or "ref" in c or "define" in c or "group" in c:
+        if c.get("kind") != "comp" or c.get("files") is not None or "text" not in c or "ref" in c or "define" in c or "group" in c or any(k.startswith("expect") for k in c) or "unknown" in c or "read" in c:
             return c
         lines = c["text"].split("\n")
         changed = True
